@@ -359,6 +359,7 @@ int main(int argc, char **argv) {
     };
     auto describe = [&](uint64_t u, uint64_t, uint64_t) { return std::make_pair(std::string(cfgs[u].rfind("gf2", 0) == 0 ? "SpVecGF2" : "SpVecFP"), std::string("config=") + cfgs[u]); };
     double t0 = vr::now_s();
+    A.has("out"); A.require_all_used();
     auto res = R.run(cfgs.size(), work, describe);
     double wall = vr::now_s() - t0;
     std::vector<std::string> samples;
